@@ -456,6 +456,11 @@ func (w *Writer) ReadFrom(src io.Reader) (n int64, err error) {
 
 		w.n += nn
 		n += int64(nn)
+		if nn > 0 {
+			// Accepted bytes belong to the message even if src fails later
+			// with non-EOF error: Flush() must complete the message.
+			w.dirty = true
+		}
 	}
 	if err == io.EOF {
 		// NOTE: Do not flush preemptively.
